@@ -65,13 +65,9 @@ func judge(t rk.Failer, slot string, c *sem.Case, key string, nontrivial bool, l
 	var io sem.ImplOut
 	run := func() sem.ImplOut {
 		io = sem.RunV1(c, 0)
-		if s, ok := io.Fields["pl_msg"].(string); ok && strings.HasPrefix(s, failPrefix) {
-			f := map[string]any{}
-			for k, v := range io.Fields {
-				f[k] = v
-			}
-			f["pl_msg"] = failPrefix
-			io.Fields = f
+		normFail(&io)
+		if ag := io.Again; ag != nil {
+			io.Again = func(f map[string]any) sem.ImplOut { o := ag(f); normFail(&o); return o }
 		}
 		return io
 	}
@@ -94,6 +90,18 @@ func judge(t rk.Failer, slot string, c *sem.Case, key string, nontrivial bool, l
 	}
 	evid.Case(key, nontrivial, labels...)
 	return &v
+}
+
+// normFail cuts the failure note of default_time down to its fixed prefix.
+func normFail(io *sem.ImplOut) {
+	if s, ok := io.Fields["pl_msg"].(string); ok && strings.HasPrefix(s, failPrefix) {
+		f := map[string]any{}
+		for k, v := range io.Fields {
+			f[k] = v
+		}
+		f["pl_msg"] = failPrefix
+		io.Fields = f
+	}
 }
 
 // wrapFail normalises the failure note text of default_time in the model.
@@ -626,8 +634,9 @@ func judgeKeepText(t rk.Failer, c *sem.Case, texts map[string]string) {
 	var io sem.ImplOut
 	v := sem.Decide(c, func() sem.ImplOut {
 		io = sem.RunV1(c, 0)
-		if s, ok := io.Fields["pl_msg"].(string); ok && strings.HasPrefix(s, failPrefix) {
-			io.Fields["pl_msg"] = failPrefix
+		normFail(&io)
+		if ag := io.Again; ag != nil {
+			io.Again = func(f map[string]any) sem.ImplOut { o := ag(f); normFail(&o); return o }
 		}
 		return io
 	}, wrapFail(extra), true, false)
